@@ -56,6 +56,17 @@ func init() {
 			return nil
 		}
 	}
+	// unique.Make during package initialisation only (net/netip's sentinel
+	// handles): a fresh canonical object per call. Interning of run-time values
+	// is not modelled.
+	register("unique.Make", func(m *Machine, fr *frame, fn *ssa.Function, args []Value) Value {
+		if m.inPath {
+			m.unsupported("unique.Make outside package initialisation")
+		}
+		p := new(Value)
+		*p = args[0]
+		return Struct{p}
+	})
 	register("sort.Slice", sortImpl("sort.Slice"))
 	register("sort.SliceStable", sortImpl("sort.SliceStable"))
 	register("sort.SliceIsSorted", func(m *Machine, fr *frame, fn *ssa.Function, args []Value) Value {
